@@ -284,14 +284,22 @@ Definition dispatch (h : header) (w : store) (pl : option Z) (b : body) : hres :
   end.
 
 (* What SQLAlchemy makes of it: the handler works on the session; commit() publishes the
-   whole working state; an exception leaves the working state as the handler left it
-   (_process_batch has no rollback in its except branches). *)
+   whole working state.  Since 52cb625 _process_batch calls session.rollback() after an item
+   that failed (engine.py l.423-426): whatever the handler left in the working state is
+   discarded, the session shows the committed store again. *)
 Definition lift (r : hres) (s : session) (pl : option Z) : outcome * session * option Z :=
   match r with
   | HOk w c p' =>
       (OK, {| committed := if c then w else committed s; working := w |},
        match p' with Some u => Some u | None => pl end)
+  | HFail reason w => (Fail reason, {| committed := committed s; working := committed s |}, pl)
+  end.
+
+(* the same before 52cb625: an exception left the working state as the handler left it *)
+Definition lift_without_rollback (r : hres) (s : session) (pl : option Z) : outcome * session * option Z :=
+  match r with
   | HFail reason w => (Fail reason, {| committed := committed s; working := w |}, pl)
+  | _ => lift r s pl
   end.
 
 Definition handle (h : header) (s : session) (pl : option Z) (it : item body) : outcome * session * option Z :=
@@ -309,8 +317,11 @@ Definition h_activate_late_guard (h : header) (w : store) (pl tgt : option Z) : 
       let w' := replace (set_state o S_ACTIVE) w in
       if negb (o_state o =? S_PRE) then HFail R_PERM w' else HOk w' true None
   end.
-Definition handle_late (h : header) (s : session) (pl : option Z) (it : item body) : outcome * session * option Z :=
+Definition handle_late_with (lf : hres -> session -> option Z -> outcome * session * option Z)
+           (h : header) (s : session) (pl : option Z) (it : item body) : outcome * session * option Z :=
   match it_body it with
-  | BActivate tgt => lift (h_activate_late_guard h (working s) pl tgt) s pl
-  | b => lift (dispatch h (working s) pl b) s pl
+  | BActivate tgt => lf (h_activate_late_guard h (working s) pl tgt) s pl
+  | b => lf (dispatch h (working s) pl b) s pl
   end.
+Definition handle_late := handle_late_with lift.                                  (* late guard, batch loop of today *)
+Definition handle_late_without_rollback := handle_late_with lift_without_rollback. (* late guard, batch loop before 52cb625 *)
